@@ -66,6 +66,9 @@ type WSClient struct {
 
 func (c *WSClient) query() string {
 	q := "EIO=" + c.O.eio() + "&transport=websocket"
+	if c.O.NoEIO {
+		q = "transport=websocket"
+	}
 	if c.O.B64 {
 		q += "&b64=1"
 	}
